@@ -2,7 +2,7 @@
 //@ assume: T6 rewrites: `vec![x; n]` => helper vec_filled (n copies of x); every `Err(Error::Verification("<message>".to_owned()))` => `Err(Error::Verification)`; integer literal types made explicit
 //@ assume: 64-bit target
 //@ assume: assumed: u64::leading_zeros(x) >= 1 for x < 2^63 (std intrinsic; only used to show `1 + mask` cannot overflow)
-//@ assume: decided here, for ANY proof and any siphash outputs: CuckaroodContext::verify (Cuckarood, the proof of work of header version 2) never indexes out of range, never overflows and ALWAYS TERMINATES -- both direction counters stay within size/2 so every slot index 4*ndir+2*dir(+1) is below 2*size; the two bucket lists only ever link a slot to an EARLIER slot of the same side and direction (so the inner `while` strictly descends), and the outer cycle walk takes at most `size` steps. The last point did NOT hold on the pinned tree (finding F11: a rho-shaped edge set makes the walk run forever; the obligations that failed were the overflow check on `n += 1` and the outer loop's `decreases`) and holds after the repair. NOT decided for this variant: that Ok implies a simple alternating cycle (the four other variants have that proof).
+//@ assume: decided here, for ANY proof and any siphash outputs: CuckaroodContext::verify (Cuckarood, the proof of work of header version 2) never indexes out of range, never overflows and ALWAYS TERMINATES -- both direction counters stay within size/2 so every slot index 4*ndir+2*dir(+1) is below 2*size; the two bucket lists only ever link a slot to an EARLIER slot of the same side and direction (so the inner `while` strictly descends), and the outer cycle walk takes at most `size` steps. The last point did NOT hold on the pinned tree (finding F11: a rho-shaped edge set makes the walk run forever; the obligations that failed were the overflow check on `n += 1` and the outer loop's `decreases`) and holds after the repair. Also decided: verify returns Ok ONLY IF the nonces are strictly ascending, within the edge mask, 21/21 balanced between the two directions, and -- with the endpoints laid out in slots by direction rank as the code does -- the walk from slot 0 that repeatedly moves to THE unique endpoint on the same side with the wanted direction (1 from a U endpoint, 0 from a V endpoint) and the same node value, then to the other end of that edge, returns to slot 0 for the first time after exactly `size` steps, visiting `size` distinct endpoints (hence, by the alternation of directions, every edge exactly once): one simple alternating cycle through all edges.
 //@ assumed_items: 5
 //@ fns: CuckaroodContext::verify
 use vstd::std_specs::bits::*;
@@ -54,6 +54,258 @@ proof fn lemma_xor1(j: usize) requires j < 0x7fff_ffff_ffff_ffff ensures (j ^ 1u
     assert((x ^ 1u64) == (if x % 2 == 0 { (x + 1) as u64 } else { (x - 1) as u64 })) by(bit_vector) requires x < 0x7fff_ffff_ffff_ffffu64;
     assert((j ^ 1usize) as u64 == x ^ 1u64) by(bit_vector) requires x == j as u64;
 }
+
+// ---------- what the two bucket lists mean ----------
+pub open spec fn dirof(e: int) -> int { (e / 2) % 2 }
+/// the bucket index the code computes for slot e: ((value << 1 | dir) & mask)
+pub open spec fn xb(uvs: Seq<u64>, mask: u64, e: int) -> int { (((uvs[e] << 1u64) | (dirof(e) as u64)) & mask) as int }
+/// e is a filled slot on `side` whose bucket is b
+pub open spec fn mem(uvs: Seq<u64>, mask: u64, side: int, b: int, e: int, nd0: int, nd1: int) -> bool {
+    0 <= e < uvs.len() && e % 2 == side && filled(e, nd0, nd1) && xb(uvs, mask, e) == b
+}
+/// heads are the largest member of their bucket, prev links the largest member below
+pub open spec fn sem(uvs: Seq<u64>, headu: Seq<usize>, headv: Seq<usize>, prev: Seq<usize>, mask: u64, nn: int, nd0: int, nd1: int) -> bool {
+    &&& uvs.len() == nn
+    &&& forall|b: int| 0 <= b <= mask && headu[b] != nn ==> #[trigger] xb(uvs, mask, headu[b] as int) == b
+    &&& forall|b: int| 0 <= b <= mask && headv[b] != nn ==> #[trigger] xb(uvs, mask, headv[b] as int) == b
+    &&& forall|b: int, e: int| 0 <= b <= mask && #[trigger] mem(uvs, mask, 0, b, e, nd0, nd1) ==> headu[b] != nn && e <= headu[b]
+    &&& forall|b: int, e: int| 0 <= b <= mask && #[trigger] mem(uvs, mask, 1, b, e, nd0, nd1) ==> headv[b] != nn && e <= headv[b]
+    &&& forall|e: int| 0 <= e < nn && filled(e, nd0, nd1) && prev[e] != nn ==> #[trigger] xb(uvs, mask, prev[e] as int) == xb(uvs, mask, e)
+    &&& forall|e: int, x: int| 0 <= e < nn && filled(e, nd0, nd1) && x < e && #[trigger] mem(uvs, mask, e % 2, xb(uvs, mask, e), x, nd0, nd1) ==> prev[e] != nn && x <= #[trigger] prev[e]
+}
+proof fn lemma_xb(uvs: Seq<u64>, mask: u64, e: int)
+    requires mask & 1 == 1, e >= 0
+    ensures 0 <= xb(uvs, mask, e) <= mask, xb(uvs, mask, e) % 2 == dirof(e)
+{ lemma_bits(uvs[e], dirof(e) as u64, mask); }
+
+
+/// arithmetic of the slot layout
+proof fn lemma_slot(e: int, idx: int, ndd: int, dir: int)
+    requires 0 <= e, 0 <= ndd, 0 <= dir <= 1, idx == 4 * ndd + 2 * dir
+    ensures idx % 2 == 0, dirof(idx) == dir, idx / 4 == ndd, dirof(idx + 1) == dir, (idx + 1) / 4 == ndd, (idx + 1) % 2 == 1,
+        (dirof(e) == dir && e / 4 < ndd) ==> e < idx,
+        (dirof(e) == dir && e / 4 == ndd) ==> (e == idx || e == idx + 1),
+        (dirof(e) == dir && e / 4 > ndd) ==> e > idx + 1,
+{
+    assert(idx % 2 == 0 && (idx / 2) % 2 == dir && idx / 4 == ndd && ((idx + 1) / 2) % 2 == dir && (idx + 1) / 4 == ndd && (idx + 1) % 2 == 1) by(nonlinear_arith) requires idx == 4 * ndd + 2 * dir, 0 <= dir <= 1, 0 <= ndd;
+    assert(e == 4 * (e / 4) + 2 * ((e / 2) % 2) + e % 2 && 0 <= e % 2 <= 1) by(nonlinear_arith) requires 0 <= e;
+}
+/// inserting one edge (both endpoints, then the direction counter) keeps the meaning of the lists
+proof fn lemma_insert_edge(uvs: Seq<u64>, hu: Seq<usize>, hv: Seq<usize>, pv: Seq<usize>, mask: u64, nn: int, nd0: int, nd1: int, dir: int, u: u64, v: u64)
+    requires mask & 1 == 1, 0 <= nn < usize::MAX, 0 <= dir <= 1, 0 <= nd0, 0 <= nd1,
+        lists(hu, hv, pv, mask, nn, nd0, nd1), sem(uvs, hu, hv, pv, mask, nn, nd0, nd1),
+        4 * (if dir == 0 { nd0 } else { nd1 }) + 2 * dir + 1 < nn,
+    ensures ({
+        let idx = 4 * (if dir == 0 { nd0 } else { nd1 }) + 2 * dir;
+        let ub = (((u << 1u64) | (dir as u64)) & mask) as int; let vb = (((v << 1u64) | (dir as u64)) & mask) as int;
+        sem(uvs.update(idx, u).update(idx + 1, v), hu.update(ub, idx as usize), hv.update(vb, (idx + 1) as usize),
+            pv.update(idx, hu[ub]).update(idx + 1, hv[vb]), mask, nn, if dir == 0 { nd0 + 1 } else { nd0 }, if dir == 1 { nd1 + 1 } else { nd1 }) })
+{
+    let ndd = if dir == 0 { nd0 } else { nd1 };
+    let idx = 4 * ndd + 2 * dir;
+    let ub = (((u << 1u64) | (dir as u64)) & mask) as int; let vb = (((v << 1u64) | (dir as u64)) & mask) as int;
+    let uvs2 = uvs.update(idx, u).update(idx + 1, v);
+    let hu2 = hu.update(ub, idx as usize); let hv2 = hv.update(vb, (idx + 1) as usize);
+    let pv2 = pv.update(idx, hu[ub]).update(idx + 1, hv[vb]);
+    let (nd0b, nd1b) = (if dir == 0 { nd0 + 1 } else { nd0 }, if dir == 1 { nd1 + 1 } else { nd1 });
+    lemma_bits(u, dir as u64, mask); lemma_bits(v, dir as u64, mask);
+    lemma_slot(0, idx, ndd, dir);
+    assert(xb(uvs2, mask, idx) == ub && xb(uvs2, mask, idx + 1) == vb);
+    assert(!filled(idx, nd0, nd1) && !filled(idx + 1, nd0, nd1) && filled(idx, nd0b, nd1b) && filled(idx + 1, nd0b, nd1b));
+    // (A) slots other than the two new ones keep value, bucket and filled-ness
+    assert forall|e: int| 0 <= e && e != idx && e != idx + 1 implies (#[trigger] filled(e, nd0b, nd1b) == filled(e, nd0, nd1)) && xb(uvs2, mask, e) == xb(uvs, mask, e) by {
+        lemma_slot(e, idx, ndd, dir);
+        if 0 <= e < nn { assert(uvs2[e] == uvs[e]); }
+    }
+    // (D) every old member of a bucket with the new edge's direction bit lies below idx
+    assert forall|side: int, b: int, e: int| #[trigger] mem(uvs, mask, side, b, e, nd0, nd1) && b % 2 == dir implies e < idx by { lemma_xb(uvs, mask, e); lemma_slot(e, idx, ndd, dir); }
+    // (C) members after the insertion
+    assert forall|side: int, b: int, e: int| #[trigger] mem(uvs2, mask, side, b, e, nd0b, nd1b) implies
+        (mem(uvs, mask, side, b, e, nd0, nd1) || (e == idx && side == 0 && b == ub) || (e == idx + 1 && side == 1 && b == vb)) by {
+        if e != idx && e != idx + 1 { assert(filled(e, nd0b, nd1b) == filled(e, nd0, nd1)); assert(uvs2[e] == uvs[e]); }
+    }
+    assert forall|b: int| 0 <= b <= mask && hu2[b] != nn implies #[trigger] xb(uvs2, mask, hu2[b] as int) == b by {
+        if b != ub { let h = hu[b] as int; assert(hu2[b] == hu[b]); assert(head_ok(h, b, 0, nn, nd0, nd1)); assert(h != idx && h != idx + 1); assert(filled(h, nd0b, nd1b) == filled(h, nd0, nd1)); assert(xb(uvs, mask, hu[b] as int) == b); }
+    }
+    assert forall|b: int| 0 <= b <= mask && hv2[b] != nn implies #[trigger] xb(uvs2, mask, hv2[b] as int) == b by {
+        if b != vb { let h = hv[b] as int; assert(hv2[b] == hv[b]); assert(head_ok(h, b, 1, nn, nd0, nd1)); assert(h != idx && h != idx + 1); assert(filled(h, nd0b, nd1b) == filled(h, nd0, nd1)); assert(xb(uvs, mask, hv[b] as int) == b); }
+    }
+    assert forall|b: int, e: int| 0 <= b <= mask && #[trigger] mem(uvs2, mask, 0, b, e, nd0b, nd1b) implies hu2[b] != nn && e <= hu2[b] by {
+        if e == idx { } else { assert(mem(uvs, mask, 0, b, e, nd0, nd1)); if b == ub { assert(e < idx); } else { assert(hu2[b] == hu[b]); } }
+    }
+    assert forall|b: int, e: int| 0 <= b <= mask && #[trigger] mem(uvs2, mask, 1, b, e, nd0b, nd1b) implies hv2[b] != nn && e <= hv2[b] by {
+        if e == idx + 1 { } else { assert(mem(uvs, mask, 1, b, e, nd0, nd1)); if b == vb { assert(e < idx); } else { assert(hv2[b] == hv[b]); } }
+    }
+    assert forall|e: int| 0 <= e < nn && filled(e, nd0b, nd1b) && pv2[e] != nn implies #[trigger] xb(uvs2, mask, pv2[e] as int) == xb(uvs2, mask, e) by {
+        if e == idx { let h = hu[ub] as int; assert(head_ok(h, ub, 0, nn, nd0, nd1)); assert(h != idx && h != idx + 1); assert(filled(h, nd0b, nd1b) == filled(h, nd0, nd1)); assert(xb(uvs, mask, hu[ub] as int) == ub); }
+        else if e == idx + 1 { let h = hv[vb] as int; assert(head_ok(h, vb, 1, nn, nd0, nd1)); assert(h != idx && h != idx + 1); assert(filled(h, nd0b, nd1b) == filled(h, nd0, nd1)); assert(xb(uvs, mask, hv[vb] as int) == vb); }
+        else { assert(filled(e, nd0b, nd1b) == filled(e, nd0, nd1)); assert(pv2[e] == pv[e]); let p = pv[e] as int; assert(prev_ok(p, e, nn));
+               lemma_slot(p, idx, ndd, dir); lemma_slot(e, idx, ndd, dir);
+               assert(p / 4 <= e / 4 && dirof(p) == dirof(e)) by(nonlinear_arith) requires 0 <= p < e, p % 4 == e % 4;
+               assert(filled(p, nd0, nd1)); assert(p != idx && p != idx + 1); assert(filled(p, nd0b, nd1b) == filled(p, nd0, nd1));
+               assert(xb(uvs, mask, pv[e] as int) == xb(uvs, mask, e)); }
+    }
+    assert forall|e: int, x: int| 0 <= e < nn && filled(e, nd0b, nd1b) && x < e && #[trigger] mem(uvs2, mask, e % 2, xb(uvs2, mask, e), x, nd0b, nd1b) implies pv2[e] != nn && x <= #[trigger] pv2[e] by {
+        if e == idx { assert(mem(uvs, mask, 0, ub, x, nd0, nd1)); }
+        else if e == idx + 1 { assert(x != idx + 1); if x == idx { assert(false); } assert(mem(uvs, mask, 1, vb, x, nd0, nd1)); }
+        else {
+            assert(filled(e, nd0b, nd1b) == filled(e, nd0, nd1)); assert(pv2[e] == pv[e]); assert(xb(uvs2, mask, e) == xb(uvs, mask, e));
+            if x == idx || x == idx + 1 {
+                // same bucket => same direction bit and same side => same residue class, so e (filled before) would lie below idx
+                lemma_xb(uvs2, mask, x); lemma_xb(uvs, mask, e); lemma_slot(e, idx, ndd, dir);
+                assert(false);
+            }
+            assert(mem(uvs, mask, e % 2, xb(uvs, mask, e), x, nd0, nd1));
+        }
+    }
+}
+
+// ---------- the walk ----------
+pub open spec fn flip1(j: int) -> int { if j % 2 == 0 { j + 1 } else { j - 1 } }
+/// the direction a partner must have: 1 when standing on a U endpoint, 0 on a V endpoint
+pub open spec fn want(i: int) -> int { if i % 2 == 0 { 1 } else { 0 } }
+pub open spec fn partner(uvs: Seq<u64>, i: int, e: int) -> bool { 0 <= e < uvs.len() && e % 2 == i % 2 && dirof(e) == want(i) && uvs[e] == uvs[i] }
+/// j is THE partner of i (or j == i: there is none)
+pub open spec fn uniq_d(uvs: Seq<u64>, i: int, j: int) -> bool {
+    if j == i { forall|e: int| !#[trigger] partner(uvs, i, e) } else { partner(uvs, i, j) && forall|e: int| #[trigger] partner(uvs, i, e) ==> e == j }
+}
+/// endpoints the walk can stand on: a U endpoint of a direction-0 edge or a V endpoint of a direction-1 edge
+pub open spec fn standing(i: int) -> bool { i % 4 == 0 || i % 4 == 3 }
+pub open spec fn dwalk(uvs: Seq<u64>, path: Seq<int>, js: Seq<int>) -> bool {
+    &&& path.len() >= 1 && js.len() == path.len() - 1 && path[0] == 0
+    &&& forall|t: int| 0 <= t < path.len() ==> 0 <= #[trigger] path[t] < uvs.len() && standing(path[t])
+    &&& forall|t: int| 0 < t < path.len() ==> #[trigger] path[t] != 0
+    &&& forall|t: int| 0 <= t < js.len() ==> #[trigger] js[t] != path[t] && uniq_d(uvs, path[t], js[t]) && path[t + 1] == flip1(js[t])
+}
+/// what Ok means: the walk closes after exactly `size` steps and never stood on the same endpoint twice
+pub open spec fn simple_dcycle(uvs: Seq<u64>, size: int) -> bool {
+    exists|path: Seq<int>, js: Seq<int>| #[trigger] dwalk(uvs, path, js.drop_last()) && path.len() == size && js.len() == size
+        && uniq_d(uvs, path.last(), js.last()) && js.last() != path.last() && flip1(js.last()) == 0 && path.no_duplicates()
+}
+/// the walk is deterministic: equal endpoints have equal futures
+proof fn lemma_future(uvs: Seq<u64>, path: Seq<int>, js: Seq<int>, jlast: int, a: int, b: int, d: int)
+    requires dwalk(uvs, path, js), uniq_d(uvs, path.last(), jlast), jlast != path.last(), flip1(jlast) == 0,
+        0 <= a < b < path.len(), path[a] == path[b], 0 <= d, b + d < path.len(),
+    ensures path[a + d] == path[b + d]
+    decreases d
+{
+    if d > 0 {
+        lemma_future(uvs, path, js, jlast, a, b, d - 1);
+        let (x, y) = (a + d - 1, b + d - 1);
+        assert(uniq_d(uvs, path[x], js[x]) && uniq_d(uvs, path[y], js[y]));
+        assert(partner(uvs, path[x], js[x])); assert(partner(uvs, path[y], js[y]));
+        assert(js[x] == js[y]);
+    }
+}
+proof fn lemma_distinct(uvs: Seq<u64>, path: Seq<int>, js: Seq<int>, jlast: int)
+    requires dwalk(uvs, path, js), uniq_d(uvs, path.last(), jlast), jlast != path.last(), flip1(jlast) == 0,
+    ensures path.no_duplicates()
+{
+    let n = path.len() as int;
+    assert forall|a: int, b: int| 0 <= a < n && 0 <= b < n && a != b implies path[a] != path[b] by {
+        let (lo, hi) = if a < b { (a, b) } else { (b, a) };
+        if path[lo] == path[hi] {
+            let d = n - 1 - hi;
+            lemma_future(uvs, path, js, jlast, lo, hi, d);
+            // path[lo + d] == path[n - 1]: its partner is jlast, so its successor is endpoint 0
+            let x = lo + d;
+            assert(x < n - 1);
+            assert(uniq_d(uvs, path[x], js[x])); assert(partner(uvs, path[x], js[x]));
+            assert(js[x] == jlast);
+            assert(path[x + 1] == 0);
+        }
+    }
+}
+
+
+// ---------- scanning one bucket ----------
+/// the bucket the code looks into when standing on i
+pub open spec fn tbucket(uvs: Seq<u64>, mask: u64, i: int) -> int { (((uvs[i] << 1u64) | (want(i) as u64)) & mask) as int }
+/// e is a slot of i's side in that bucket above the cursor (any, once the cursor reached the sentinel): it has been compared with i
+pub open spec fn scanned(uvs: Seq<u64>, mask: u64, i: int, k: int, nn: int, h: int, e: int) -> bool {
+    mem(uvs, mask, i % 2, tbucket(uvs, mask, i), e, h, h) && (k == nn || e > k)
+}
+pub open spec fn sinv(uvs: Seq<u64>, mask: u64, i: int, k: int, j: int, nn: int, h: int) -> bool {
+    &&& (k == nn || mem(uvs, mask, i % 2, tbucket(uvs, mask, i), k, h, h))
+    &&& 0 <= j < nn
+    &&& (j == i ==> forall|e: int| #[trigger] scanned(uvs, mask, i, k, nn, h, e) ==> uvs[e] != uvs[i])
+    &&& (j != i ==> scanned(uvs, mask, i, k, nn, h, j) && uvs[j] == uvs[i] && forall|e: int| #[trigger] scanned(uvs, mask, i, k, nn, h, e) && e != j ==> uvs[e] != uvs[i])
+}
+proof fn lemma_scan_init(uvs: Seq<u64>, hu: Seq<usize>, hv: Seq<usize>, pv: Seq<usize>, mask: u64, nn: int, h: int, i: int)
+    requires mask & 1 == 1, lists(hu, hv, pv, mask, nn, h, h), sem(uvs, hu, hv, pv, mask, nn, h, h), 0 <= i < nn,
+    ensures ({ let tb = tbucket(uvs, mask, i); 0 <= tb <= mask && sinv(uvs, mask, i, (if i % 2 == 0 { hu[tb] } else { hv[tb] }) as int, i, nn, h) })
+{
+    lemma_bits(uvs[i], want(i) as u64, mask);
+    let tb = tbucket(uvs, mask, i);
+    let k = (if i % 2 == 0 { hu[tb] } else { hv[tb] }) as int;
+    if i % 2 == 0 { assert(head_ok(hu[tb] as int, tb, 0, nn, h, h)); if k != nn { assert(xb(uvs, mask, hu[tb] as int) == tb); } }
+    else { assert(head_ok(hv[tb] as int, tb, 1, nn, h, h)); if k != nn { assert(xb(uvs, mask, hv[tb] as int) == tb); } }
+    assert forall|e: int| #[trigger] scanned(uvs, mask, i, k, nn, h, e) implies uvs[e] != uvs[i] by {
+        assert(mem(uvs, mask, i % 2, tb, e, h, h));
+        if i % 2 == 0 { assert(hu[tb] != nn && e <= hu[tb]); } else { assert(hv[tb] != nn && e <= hv[tb]); }
+    }
+}
+proof fn lemma_scan_step(uvs: Seq<u64>, hu: Seq<usize>, hv: Seq<usize>, pv: Seq<usize>, mask: u64, nn: int, h: int, i: int, k: int, j: int)
+    requires mask & 1 == 1, lists(hu, hv, pv, mask, nn, h, h), sem(uvs, hu, hv, pv, mask, nn, h, h), 0 <= i < nn, 0 <= k < nn,
+        sinv(uvs, mask, i, k, j, nn, h), forall|e: int| 0 <= e < nn ==> #[trigger] filled(e, h, h),
+        !(uvs[k] == uvs[i] && j != i), standing(i),
+    ensures sinv(uvs, mask, i, pv[k] as int, if uvs[k] == uvs[i] { k } else { j }, nn, h), k != i,
+{
+    let tb = tbucket(uvs, mask, i);
+    let k2 = pv[k] as int;
+    let j2 = if uvs[k] == uvs[i] { k } else { j };
+    assert(mem(uvs, mask, i % 2, tb, k, h, h));
+    lemma_xb(uvs, mask, k); lemma_bits(uvs[i], want(i) as u64, mask);
+    assert(dirof(i) != want(i)) by(nonlinear_arith) requires standing(i), 0 <= i;
+    assert(k != i);
+    assert(prev_ok(k2, k, nn));
+    if k2 != nn {
+        assert(xb(uvs, mask, pv[k] as int) == xb(uvs, mask, k));
+        assert(k2 % 2 == k % 2) by(nonlinear_arith) requires 0 <= k2 < k, k2 % 4 == k % 4;
+        assert(mem(uvs, mask, i % 2, tb, k2, h, h));
+    }
+    // scanned' == scanned + {k}
+    assert forall|e: int| #[trigger] scanned(uvs, mask, i, k2, nn, h, e) implies (scanned(uvs, mask, i, k, nn, h, e) || e == k) by {
+        if e < k { assert(mem(uvs, mask, k % 2, xb(uvs, mask, k), e, h, h)); assert(pv[k] != nn && e <= pv[k]); }
+    }
+    if j != i { assert(scanned(uvs, mask, i, k, nn, h, j)); assert(j > k); }
+    assert(scanned(uvs, mask, i, k2, nn, h, k));
+    if j2 != i {
+        assert(scanned(uvs, mask, i, k2, nn, h, j2));
+        assert forall|e: int| #[trigger] scanned(uvs, mask, i, k2, nn, h, e) && e != j2 implies uvs[e] != uvs[i] by { if e != k { assert(scanned(uvs, mask, i, k, nn, h, e)); } }
+    } else {
+        assert forall|e: int| #[trigger] scanned(uvs, mask, i, k2, nn, h, e) implies uvs[e] != uvs[i] by { if e != k { assert(scanned(uvs, mask, i, k, nn, h, e)); } }
+    }
+}
+proof fn lemma_scan_done(uvs: Seq<u64>, mask: u64, nn: int, h: int, i: int, j: int)
+    requires mask & 1 == 1, uvs.len() == nn, nn % 2 == 0, 0 <= i < nn, standing(i), sinv(uvs, mask, i, nn, j, nn, h), forall|e: int| 0 <= e < nn ==> #[trigger] filled(e, h, h),
+    ensures uniq_d(uvs, i, j), j != i ==> standing(flip1(j)) && 0 <= flip1(j) < nn,
+{
+    let tb = tbucket(uvs, mask, i);
+    lemma_bits(uvs[i], want(i) as u64, mask);
+    assert forall|e: int| #[trigger] partner(uvs, i, e) implies scanned(uvs, mask, i, nn, nn, h, e) by {
+        assert(filled(e, h, h));
+        assert(xb(uvs, mask, e) == tb);
+    }
+    assert(!partner(uvs, i, i)) by { assert(dirof(i) != want(i)) by(nonlinear_arith) requires standing(i), 0 <= i; }
+    if j != i {
+        assert(scanned(uvs, mask, i, nn, nn, h, j));
+        lemma_xb(uvs, mask, j);
+        assert(dirof(j) == want(i));
+        assert(partner(uvs, i, j));
+        assert(standing(flip1(j)) && 0 <= flip1(j) < nn) by(nonlinear_arith) requires 0 <= j < nn, j % 2 == i % 2, (j / 2) % 2 == want(i), nn % 2 == 0, standing(i),
+            want(i) == (if i % 2 == 0 { 1int } else { 0int }), flip1(j) == (if j % 2 == 0 { j + 1 } else { j - 1 });
+    }
+}
+
+// ---------- the endpoints laid out in slots by direction rank ----------
+pub open spec fn cnt_dir(nonces: Seq<u64>, n: int, d: int) -> int decreases n { if n <= 0 { 0 } else { cnt_dir(nonces, n - 1, d) + (if (nonces[n - 1] & 1) as int == d { 1int } else { 0int }) } }
+pub open spec fn slots(p: CuckooParams, nonces: Seq<u64>, n: int) -> Seq<u64> decreases n {
+    if n <= 0 { Seq::new((2 * nonces.len()) as nat, |e: int| 0u64) } else {
+        let s = slots(p, nonces, n - 1); let d = (nonces[n - 1] & 1) as int; let idx = 4 * cnt_dir(nonces, n - 1, d) + 2 * d;
+        let edge = sp_siphash(p.siphash_keys, nonces[n - 1]);
+        s.update(idx, edge & p.node_mask).update(idx + 1, (edge >> 32u64) & p.node_mask) }
+}
 pub struct CuckaroodContext { pub params: CuckooParams }
 impl CuckaroodContext {
 //@ extract core/src/pow/cuckarood.rs :: impl PoWContext for CuckaroodContext::verify
@@ -80,21 +332,31 @@ impl CuckaroodContext {
 //@+            lemma_mask_odd(lz); }
 //@   before `#1:for n in 0..size {`:
 //@+    let ghost nn: int = 2 * size;
+//@+    proof { assert(uvs@ =~= slots(self.params, nonces@, 0)); }
 //@   loop 1:
 //@+    invariant
 //@+        nn == 2 * size, size == proof.nonces@.len(), nonces@ == proof.nonces@, 1 <= size <= 0x10_0000, mask < u64::MAX, mask & 1 == 1,
 //@+        uvs@.len() == nn, ndir@.len() == 2, ndir@[0] <= size / 2, ndir@[1] <= size / 2, ndir@[0] + ndir@[1] == n,
 //@+        lists(headu@, headv@, prev@, mask, nn, ndir@[0] as int, ndir@[1] as int),
+//@+        sem(uvs@, headu@, headv@, prev@, mask, nn, ndir@[0] as int, ndir@[1] as int),
+//@+        uvs@ == slots(self.params, nonces@, n as int), ndir@[0] == cnt_dir(nonces@, n as int, 0), ndir@[1] == cnt_dir(nonces@, n as int, 1),
+//@+        forall|a: int| 0 <= a < n ==> #[trigger] nonces@[a] <= self.params.edge_mask,
+//@+        forall|a: int| 1 <= a < n ==> nonces@[a - 1] < #[trigger] nonces@[a],
 //@   after `let dir = (nonces[n] & 1) as usize;`:
 //@+    proof { let x = nonces@[n as int]; assert((x & 1) <= 1) by(bit_vector); }
 //@   before `uvs[idx] = u;`:
-//@+    let ghost (hu0, hv0, pv0, nd0, nd1) = (headu@, headv@, prev@, ndir@[0] as int, ndir@[1] as int);
+//@+    let ghost (hu0, hv0, pv0, nd0, nd1, uvs0) = (headu@, headv@, prev@, ndir@[0] as int, ndir@[1] as int, uvs@);
 //@+    proof { lemma_bits(u, dir as u64, mask); lemma_bits(v, dir as u64, mask);
 //@+            assert(idx + 1 < nn) by(nonlinear_arith) requires idx == 4 * ndir@[dir as int] + 2 * dir, ndir@[dir as int] < size / 2, dir <= 1, nn == 2 * size;
 //@+            assert(idx % 2 == 0 && (idx / 2) % 2 == dir && idx / 4 == ndir@[dir as int] && (idx + 1) / 4 == ndir@[dir as int] && ((idx + 1) / 2) % 2 == dir && (idx + 1) % 2 == 1)
 //@+                by(nonlinear_arith) requires idx == 4 * ndir@[dir as int] + 2 * dir, dir <= 1; }
 //@   before `xor0 ^= u;`:
 //@+    proof {
+//@+        lemma_insert_edge(uvs0, hu0, hv0, pv0, mask, nn, nd0, nd1, dir as int, u, v);
+//@+        assert(uvs@ == uvs0.update(idx as int, u).update(idx + 1, v));
+//@+        assert(headu@ == hu0.update(ubits as int, idx)); assert(headv@ == hv0.update(vbits as int, (idx + 1) as usize));
+//@+        assert(prev@ == pv0.update(idx as int, hu0[ubits as int]).update(idx + 1, hv0[vbits as int]));
+//@+        assert(uvs@ == slots(self.params, nonces@, n + 1));
 //@+        let (nd0b, nd1b) = (if dir == 0 { nd0 + 1 } else { nd0 }, if dir == 1 { nd1 + 1 } else { nd1 });
 //@+        assert forall|e: int| #[trigger] filled(e, nd0, nd1) implies filled(e, nd0b, nd1b) by { }
 //@+        assert(filled(idx as int, nd0b, nd1b) && filled(idx + 1, nd0b, nd1b));
@@ -110,25 +372,52 @@ impl CuckaroodContext {
 //@+        }
 //@+    }
 //@   before `let mut n: usize = 0;`:
+//@+    let ghost mut path: Seq<int> = seq![0int];
+//@+    let ghost mut js: Seq<int> = Seq::empty();
+//@+    let ghost mut jlast: int = 0;
+//@+    let ghost h = (size / 2) as int;
 //@+    proof { assert(ndir@[0] == size / 2 && ndir@[1] == size / 2);
 //@+            assert forall|e: int| 0 <= e < nn implies #[trigger] filled(e, (size / 2) as int, (size / 2) as int) by { } }
 //@   loop 2:
 //@+    invariant_except_break
-//@+        n < size,
+//@+        n < size, dwalk(uvs@, path, js), path.len() == n + 1, path.last() == i,
 //@+    invariant
 //@+        nn == 2 * size, 1 <= size <= 0x10_0000, uvs@.len() == nn, mask < u64::MAX, mask & 1 == 1,
 //@+        lists(headu@, headv@, prev@, mask, nn, (size / 2) as int, (size / 2) as int), size % 2 == 0,
-//@+        i < nn, n <= size,
+//@+        i < nn, n <= size, h == size / 2, sem(uvs@, headu@, headv@, prev@, mask, nn, h, h),
+//@+        forall|e: int| 0 <= e < nn ==> #[trigger] filled(e, h, h),
+//@+        uvs@ == slots(self.params, proof.nonces@, size as int), size == proof.nonces@.len(),
+//@+    ensures
+//@+        dwalk(uvs@, path, js), path.len() == n, uniq_d(uvs@, path.last(), jlast), jlast != path.last(), flip1(jlast) == 0,
 //@+    decreases size - n,
 //@   after `j = i;`:
-//@+    proof { lemma_bits(uvs@[i as int], 1, mask); lemma_bits(uvs@[i as int], 0, mask); }
+//@+    proof { lemma_bits(uvs@[i as int], 1, mask); lemma_bits(uvs@[i as int], 0, mask); lemma_scan_init(uvs@, headu@, headv@, prev@, mask, nn, h, i as int);
+//@+            let x = i as u64; assert((x & 1 == 0) == (x % 2 == 0)) by(bit_vector); }
+//@   before `k = prev[k];`:
+//@+    proof { lemma_scan_step(uvs@, headu@, headv@, prev@, mask, nn, h, i as int, k as int, if uvs@[k as int] == uvs@[i as int] { i as int } else { j as int }); }
 //@   loop 3:
 //@+    invariant
-//@+        nn == 2 * size, uvs@.len() == nn, prev@.len() == nn, i < nn, j < nn, k <= nn,
+//@+        nn == 2 * size, uvs@.len() == nn, prev@.len() == nn, i < nn, j < nn, k <= nn, mask & 1 == 1, h == size / 2,
 //@+        forall|e: int| 0 <= e < nn ==> prev_ok(#[trigger] prev@[e] as int, e, nn),
+//@+        lists(headu@, headv@, prev@, mask, nn, h, h), sem(uvs@, headu@, headv@, prev@, mask, nn, h, h), forall|e: int| 0 <= e < nn ==> #[trigger] filled(e, h, h),
+//@+        sinv(uvs@, mask, i as int, k as int, j as int, nn, h), standing(i as int),
 //@+    decreases (if k == nn { 0int } else { k + 1 }),
+//@   before `if j == i {`:
+//@+    proof { lemma_scan_done(uvs@, mask, nn, h, i as int, j as int); }
 //@   before `i = j ^ 1;`:
-//@+    proof { lemma_xor1(j); }
+//@+    proof { lemma_xor1(j); jlast = j as int;
+//@+            if flip1(j as int) != 0 { let p2 = path.push(flip1(j as int)); let j2 = js.push(j as int);
+//@+                assert forall|t: int| 0 <= t < j2.len() implies #[trigger] j2[t] != p2[t] && uniq_d(uvs@, p2[t], j2[t]) && p2[t + 1] == flip1(j2[t]) by { if t < js.len() { assert(j2[t] == js[t] && p2[t] == path[t] && p2[t + 1] == path[t + 1]); } }
+//@+                path = p2; js = j2; } }
+//@   before `if n == size {`:
+//@+    proof { if n == size { lemma_distinct(uvs@, path, js, jlast); let jsf = js.push(jlast); assert(jsf.drop_last() =~= js);
+//@+                assert(dwalk(uvs@, path, jsf.drop_last()) && path.len() == size && jsf.len() == size && uniq_d(uvs@, path.last(), jsf.last()) && jsf.last() != path.last() && flip1(jsf.last()) == 0 && path.no_duplicates()); } }
+//@   ensures:
+//@+    r.is_ok() ==> proof.nonces@.len() == sp_proofsize()
+//@+        && (forall|a: int| 0 <= a < proof.nonces@.len() ==> #[trigger] proof.nonces@[a] <= self.params.edge_mask)
+//@+        && (forall|a: int| 1 <= a < proof.nonces@.len() ==> proof.nonces@[a - 1] < #[trigger] proof.nonces@[a])
+//@+        && cnt_dir(proof.nonces@, proof.nonces@.len() as int, 0) == cnt_dir(proof.nonces@, proof.nonces@.len() as int, 1)
+//@+        && simple_dcycle(slots(self.params, proof.nonces@, proof.nonces@.len() as int), sp_proofsize() as int),
 //@ end
 }
 //@ canary verify: r.is_err()
